@@ -314,10 +314,10 @@ fn draw_script(n_authors: usize) -> Vec<OpS> {
 }
 
 fn draw_op(n_authors: usize) -> OpS {
-    match ctx::choose("op.kind", 12) {
-        k @ 0..=8 => OpS::Ack { author: ctx::choose("ack.author", n_authors), foreign: k >= 7, seq: ctx::choose("ack.seq", 8) as u32 },
-        9 => OpS::Nacked,
-        10 => OpS::ResetStart,
+    match ctx::choose("op.kind", 18) {
+        k @ 0..=13 => OpS::Ack { author: ctx::choose("ack.author", n_authors), foreign: k >= 11, seq: ctx::choose("ack.seq", 8) as u32 },
+        14 | 15 => OpS::Nacked,
+        16 => OpS::ResetStart,
         _ => {
             let wrong_name = ctx::chance("reset.wrong_name", 1, 2);
             let mut state = vec![];
